@@ -22,7 +22,7 @@ SPEC = {'id': 'C25',
                'mutating queries of the batch in order with the submitting user; a request answered with an '
                'error leaves the whole server state unchanged; compared line by line with a real agdb_server '
                '(results, audit endpoint) and checked by an independent before/after oracle.',
- 'level_note': "The rollback of agdb's transaction_mut itself is property C13 (db group) and is assumed "
+ 'level_note': "Stream limitation (DESIGN §11, seeded C25/s2 missed): batches are built from 7 query kinds (no index queries); the audited-kind table C25_kind_table is tied to the code only through those kinds. The rollback of agdb's transaction_mut itself is property C13 (db group) and is assumed "
                'here; the query language in the stream is a 7-query fragment (insert nodes / aliases, '
                'remove, remove aliases, select ids / aliases / node count) with :N references.',
  'technique': 'functional model of UserDb::exec_mut + induction over the batch; differential run over HTTP '
